@@ -1,7 +1,6 @@
 from collections import OrderedDict
 from copy import deepcopy
 from importlib import import_module
-from itertools import zip_longest
 
 import regex as re
 
@@ -190,12 +189,13 @@ class LocaleDataLoader:
                 )
             if region is None:
                 region = ""
-            locales = _construct_locales(languages, region)
-            locale_dict.update(
-                zip_longest(
-                    locales, tuple(zip_longest(languages, [], fillvalue=region))
-                )
-            )
+            for language in languages:
+                locale = language + "-" + region if region else language
+                if _isvalidlocale(locale):
+                    locale_dict[locale] = (language, region)
+                else:
+                    # the language has no such region: use the language itself
+                    locale_dict[language] = (language, "")
 
         if not use_given_order:
             locale_dict = OrderedDict(
